@@ -100,15 +100,24 @@ def recover(wire, path, body, p=None):
             "body": env["wsgi.input"].read(), "want_path": path, "want_body": body, "ctype": env.get("CONTENT_TYPE", "")}
 
 
-def roundtrip(method, seg, qkey, qval, hval, bodykind):
+# a query string the application has already put into the path: the client merges it with the query arguments; what the
+# request then carries is the client's own .qargs, and that is what the server must recover
+PATHQ = {"none": "", "amp": "?p1=a%20b&p2=c", "semi": "?p1=a;p2=c", "flag": "?p1", "pct": "?p%201=%26%3D&p2=a+b"}
+
+
+def roundtrip(method, seg, qkey, qval, hval, bodykind, pq="none"):
     from hio.core.http import clienting
     kw, body = params(method, seg, qkey, qval, hval, bodykind)
+    path = kw["path"]
+    kw["path"] = path + PATHQ[pq]
     try:
         rq = clienting.Requester(hostname="h", port=8080, scheme="http", **kw)
         wire = rq.build()
     except UnicodeEncodeError as ex:
         return {"unencodable": str(ex)}
-    return recover(wire, kw["path"], body)
+    r = recover(wire, path, body)
+    r["client_qargs"] = {str(k): str(v) for k, v in rq.qargs.items()}
+    return r
 
 
 def roundtrip_seq(reqs):
@@ -135,7 +144,7 @@ def roundtrip_seq(reqs):
     return out
 
 
-def judge(r, seg, qkey, qval, hval, method, bodykind, dontcare):
+def judge(r, seg, qkey, qval, hval, method, bodykind, dontcare, pq="none"):
     if "unencodable" in r:
         return None if any(ord(c) > 255 for c in hval) else "request cannot be built: %s" % r["unencodable"]
     if "error" in r:
@@ -147,6 +156,11 @@ def judge(r, seg, qkey, qval, hval, method, bodykind, dontcare):
     if r["path"] != r["want_path"] or r["path2"] != r["want_path"]:
         return "path %r recovered as %r (environ) / %r (parser); wire %r" % (r["want_path"], r["path"], r["path2"], r["wire"][:120])
     want_q = {qkey: qval, "fix": "1"}
+    if pq != "none":
+        if any(r["client_qargs"].get(k) != v for k, v in want_q.items()) or len(r["client_qargs"]) <= len(want_q):
+            return "the request built from a path with the query %r and arguments %r carries the arguments %r" % (
+                PATHQ[pq], want_q, r["client_qargs"])
+        want_q = r["client_qargs"]
     if r["qargs"] != want_q:
         return "query arguments %r recovered as %r; wire %r" % (want_q, r["qargs"], r["wire"][:160])
     if r["hval"] != hval:
@@ -208,7 +222,7 @@ def run_reuse(ctx, classes):
 def run(ctx):
     classes = set(CLASS)
     consts = {"Classes": classes, "Methods": {"GET", "POST", "PUT"}, "BodyKinds": {"none", "raw", "json", "form"},
-              "MaxAway": 2 if ctx.quick else 3}
+              "MaxAway": 2 if ctx.quick else 3, "PathQueries": set(PATHQ)}
     r = ctx.tlc("http", "ReqChannel", core.cfg_text(constants=consts, invariants=["Identity"]))
     for v in r.violated:
         ctx.violation("the model violates %s" % v, {"tlc": r.out[-2000:]})
@@ -220,21 +234,23 @@ def run(ctx):
         q = rec["req"]
         if q["method"] == "GET" and q["body"] != "none":
             continue
+        if q["pq"] != "none" and sum(1 for f in ("seg", "qkey", "qval", "hval") if q[f] != "plain") > (1 if ctx.quick else 2):
+            continue        # a query in the path is combined with one (thorough: two) field away from the default
         k = i % 3
         pick = lambda c: CLASS[c][k % len(CLASS[c])]
         seg, qkey, qval, hval = pick(q["seg"]), pick(q["qkey"]), pick(q["qval"]), pick(q["hval"])
-        ctx.case((q["method"], q["seg"], q["qkey"], q["qval"], q["hval"], q["body"], k),
+        ctx.case((q["method"], q["seg"], q["qkey"], q["qval"], q["hval"], q["body"], q["pq"], k),
                  {"request": q, "concrete": {"seg": seg, "qkey": qkey, "qval": qval, "hval": hval}} if i == 500 else None)
         try:
             with core.watchdog():
-                res = roundtrip(q["method"], seg, qkey, qval, hval, q["body"])
+                res = roundtrip(q["method"], seg, qkey, qval, hval, q["body"], q["pq"])
         except core.Hang:
             res = {"error": "did not return"}
         except Exception as ex:
             res = {"error": "raised %s: %s" % (type(ex).__name__, ex)}
-        bad = judge(res, seg, qkey, qval, hval, q["method"], q["body"], rec["dontcare"])
+        bad = judge(res, seg, qkey, qval, hval, q["method"], q["body"], rec["dontcare"], q["pq"])
         if bad:
-            ctx.violation("%s /top/%r/end?%r=%r X-H: %r body %s: %s" % (q["method"], seg, qkey, qval, hval, q["body"], bad),
+            ctx.violation("%s /top/%r/end%s?%r=%r X-H: %r body %s: %s" % (q["method"], seg, PATHQ[q["pq"]], qkey, qval, hval, q["body"], bad),
                           {"req": q, "k": k, "dontcare": rec["dontcare"]})
     run_reuse(ctx, classes)
     ctx.exhaustive = True
@@ -259,8 +275,8 @@ def replay_case(ctx, case):
     pick = lambda c: CLASS[c][k % len(CLASS[c])]
     seg, qkey, qval, hval = pick(q["seg"]), pick(q["qkey"]), pick(q["qval"]), pick(q["hval"])
     try:
-        res = roundtrip(q["method"], seg, qkey, qval, hval, q["body"])
+        res = roundtrip(q["method"], seg, qkey, qval, hval, q["body"], q.get("pq", "none"))
     except Exception as ex:
         res = {"error": "raised %s: %s" % (type(ex).__name__, ex)}
-    bad = judge(res, seg, qkey, qval, hval, q["method"], q["body"], case["dontcare"])
+    bad = judge(res, seg, qkey, qval, hval, q["method"], q["body"], case["dontcare"], q.get("pq", "none"))
     return [bad] if bad else []
